@@ -942,6 +942,8 @@ class Models(object):
 
     def container_method(self, slf, name, args, kwargs):
         """Methods of concrete containers whose arguments are symbolic."""
+        if not has_sym(args, 2) and not has_sym(kwargs, 2) and not is_sym(slf):
+            return getattr(slf, name)(*args, **kwargs)
         if isinstance(slf, list) and name in ("extend", "__iadd__"):
             other = args[0]
             if isinstance(other, SSeq):
